@@ -1,7 +1,8 @@
 """C16 - tensor addressing: (M) TLC checks the row-major bijection and the view/slice addressing facts for every shape of
-small rank/dimension; (E) every index tuple, prefix view, slice, reshape, gather, storage conversion and summed-area table
+small rank/dimension; (E) every index tuple, prefix view, slice, reshape (to rank 1..4, the inferred dimension at every position),
+view of a view, gather (all overloads), storage conversion / map assignment and summed-area table (empty tensors included)
 of all shapes rank<=4 dims 0..4 (rank 5: 0..3) plus random large shapes is executed on real tensors (ASan/UBSan build) and
-re-computed by TLC."""
+re-computed by TLC; every view is read through its constant overload and written through its mutable overload."""
 import os
 from concurrent.futures import ThreadPoolExecutor
 
@@ -72,6 +73,8 @@ def run(rep, tier):
     rep.add(traces_validated_against_impl=total, records=kinds, shapes_enumerated=len(shapes), exhaustive=True)
     rep.assume("the root buffer holds its own flat indices, so the values read through a view are the offsets it addresses; views larger "
                "than 64 elements are compared by (offset, dims, count, sum of value mod 1000)",
+               "writes: the k-th element of a mutable view receives a marker encoding k, the root is then compared element by element "
+               "(number of changed elements, flat position where each marker arrived; large views: first position + consecutive) and restored",
                "driver and headers compiled with -fsanitize=address,undefined: an access outside the tensor stops the driver",
                "reshape with an inferred dimension next to a zero-sized one (0/0) is excluded: not a valid access")
 
